@@ -7,6 +7,8 @@ plan and then the `finally` clause.
 -/
 import DefconModel.Lemmas.SaveSteps
 import DefconModel.Lemmas.SaveStepsRetry
+import DefconModel.Lemmas.SaveStepsFault
+import DefconModel.Lemmas.SaveStepsWitness
 
 namespace DefconModel.Props.C18
 open DefconModel DefconModel.SaveSteps
@@ -66,7 +68,9 @@ theorem exec_temp_disk (p : Nat) (w : World) (s : Step)
   | writeComp i => simp [exec, target, putTarget]
   | openGlyphSet => exact ⟨rfl, rfl⟩
   | writeGlyph g => simp [exec, target, putTarget]
+  | deleteGlyph g => simp [exec, target, putTarget]
   | writeContents => simp [exec, target, putTarget]
+  | writeLayerInfo => simp [exec, target, putTarget]
   | moveAside q => have := hs2 q (Or.inl rfl); subst this; exact absurd rfl hs.1
   | moveTemp q => have := hs2 q (Or.inr rfl); subst this; exact absurd rfl hs.2.1
   | dropAside => exact absurd rfl hs.2.2
@@ -94,13 +98,13 @@ theorem plan_over_prefix (f : Font) (p : Nat) :
       ((List.range f.comps.length).filter (fun i => isSaveAs (.saveAsOver p) || f.compDirty.getD i false)).map Step.writeComp ++
       [Step.openGlyphSet] ++
       ((f.glyphs.map Prod.fst).filter (fun g => isSaveAs (.saveAsOver p) || g ∈ f.glyphDirty)).map Step.writeGlyph ++
-      [Step.writeContents], by unfold plan; simp only [List.append_assoc], ?_, ?_⟩
+      [Step.writeContents] ++ [Step.writeLayerInfo], by unfold plan; simp [isSaveAs], ?_, ?_⟩
   · intro s hs
     simp only [List.mem_append, List.mem_cons, List.mem_map, List.mem_singleton, List.not_mem_nil, or_false] at hs
-    rcases hs with (((rfl | ⟨i, _, rfl⟩) | rfl) | ⟨g, _, rfl⟩) | rfl <;> simp
+    rcases hs with ((((rfl | ⟨i, _, rfl⟩) | rfl) | ⟨g, _, rfl⟩) | rfl) | rfl <;> simp
   · intro s hs q hq
     simp only [List.mem_append, List.mem_cons, List.mem_map, List.mem_singleton, List.not_mem_nil, or_false] at hs
-    rcases hs with (((rfl | ⟨i, _, rfl⟩) | rfl) | ⟨g, _, rfl⟩) | rfl <;> simp at hq
+    rcases hs with ((((rfl | ⟨i, _, rfl⟩) | rfl) | ⟨g, _, rfl⟩) | rfl) | rfl <;> simp at hq
 
 /-- every failure before the final replace (every write, close, …) leaves the whole disk exactly as it was -/
 theorem destination_untouched_before_replace (w : World) (p k : Nat) (ha : w.aside = none)
@@ -163,10 +167,10 @@ def w20 : World :=
   { font := { comps := [7], compDirty := [true], glyphs := [], glyphDirty := [], path := 1, format := 3, dirty := true },
     disk := [(1, { comps := [5] }), (2, { comps := [9] })] }
 
-/-- its plan has seven steps; a failure at any of the six that can fail leaves path 2 as it was
-(before the repair the failure between removing and moving in, k = 5, lost it) … -/
-example : (plan w20.font (.saveAsOver 2)).length = 7 := by decide
-example : ∀ k, k < 6 → lookup (failAt (.saveAsOver 2) w20 k).disk 2 = some { comps := [9] } := by decide
+/-- its plan has eight steps (the layer info is a step of its own since round 3); a failure at any of the seven
+that can fail leaves path 2 as it was (before the repair the failure between removing and moving in lost it) … -/
+example : (plan w20.font (.saveAsOver 2)).length = 8 := by decide
+example : ∀ k, k < 7 → lookup (failAt (.saveAsOver 2) w20 k).disk 2 = some { comps := [9] } := by decide
 /-- … and the completed save installs the new UFO there -/
 example : lookup (save (.saveAsOver 2) w20).disk 2 = some { comps := [7] } := by decide
 
@@ -246,5 +250,201 @@ theorem retry_after_component_failure (w : World) (k : Nat) (ht : w.temp = none)
 the retry, the failure after the glyph write (k = 3, `retry_violated_in_place`) is not -/
 example : (dirtyComps w19.font).length = 1 := by decide
 example : reopen (save .inPlace (failAt .inPlace w19 1)) 1 = some ([7, 3], [(1, 6), (0, 4)]) := by decide
+
+/-! ### round 3: the order inside one layer's save; content faults and their correction
+
+`plan` now spells out one layer's save in the order the code uses: every dirty glyph's file, then the removal of
+every file scheduled for deletion, then the listing — after which (and only then) the layer forgets its pending
+deletions —, then the layer info.  A step fails because the environment fails at it (`failAt k`, as before) or because
+its own content cannot be written (`faulty`; `attempt` stops at the first such step, on every attempt until the
+content is replaced).  `Sync` (Spec/SaveSteps.lean) is the relation between a font and its UFO that every history of
+edits, completed saves and harmless failures maintains: what is not flagged dirty is on disk as it is in memory. -/
+
+/-- **A completed in-place save makes memory = disk.**  For every font in `Sync` with its UFO — whatever is dirty, new,
+renamed or scheduled for deletion — re-opening the UFO after the save shows exactly the components, glyphs and layer
+info memory holds, and no glyph memory does not hold; and the relation holds again, with nothing pending. -/
+theorem save_persists (w : World) (h : Sync w) : Persisted (save .inPlace w) ∧ Sync (save .inPlace w) :=
+  save_persists' h
+
+example : reopen wSaved 1 = some ([7], [(1, 5), (2, 8), (3, 9)]) := by decide
+
+/-- non-vacuity of `save_persists`: a font in `Sync` with a changed component, a new glyph, changed glyphs and a pending
+deletion; after the save the UFO shows exactly that -/
+example : wEdited.font.scheduled = [3] ∧ wEdited.font.glyphDirty = [0, 1, 2] ∧ (own wEdited).listing = [3, 2, 1] := by decide
+example : reopen (save .inPlace wEdited) 1 = some ([70], [(2, 88), (1, 6), (0, 4)]) := by decide
+
+/-- **A content fault is a failure like any other**: a save that stops because some content cannot be written ends in
+exactly the world a save ends in whose environment fails at that step — so everything proved about `failAt`
+(identity kept, nothing temporary left, the destination untouched) holds for content faults too. -/
+theorem content_fault_is_failure (m : Mode) (w : World) (h : (attempt m w).2 = false) :
+    ∃ k, k < (plan w.font m).length ∧ faultAt m w (plan w.font m) = some k ∧ (attempt m w).1 = failAt m w k := by
+  unfold attempt at h ⊢
+  cases hf : faultAt m w (plan w.font m) with
+  | none => simp [hf] at h
+  | some k => exact ⟨k, faultAt_lt _ _ _ _ hf, rfl, by simp⟩
+
+/-- … in particular: path, format, dirty state and in-memory content are kept and no temporary directory is left … -/
+theorem content_fault_identity_kept (m : Mode) (w : World) (h : (attempt m w).2 = false) :
+    (attempt m w).1.font.path = w.font.path ∧ (attempt m w).1.font.format = w.font.format ∧
+    (attempt m w).1.font.dirty = w.font.dirty ∧ (attempt m w).1.font.comps = w.font.comps ∧
+    (attempt m w).1.font.glyphs = w.font.glyphs ∧ (attempt m w).1.temp = none ∧ (attempt m w).1.aside = none := by
+  obtain ⟨k, _, _, hk⟩ := content_fault_is_failure m w h
+  rw [hk]
+  obtain ⟨a, b, c, d, e⟩ := identity_kept m w k
+  obtain ⟨t1, t2, _, _⟩ := no_temp_left m w k
+  exact ⟨a, b, c, d, e, t1, t2⟩
+
+/-- … and a content fault in a save over an existing destination leaves the whole disk exactly as it was (it cannot
+hit the final replace: putting aside, moving in and dropping have no content of their own). -/
+theorem content_fault_destination_untouched (w : World) (p : Nat) (ha : w.aside = none)
+    (h : (attempt (.saveAsOver p) w).2 = false) : (attempt (.saveAsOver p) w).1.disk = w.disk := by
+  obtain ⟨k, _, hf, hk⟩ := content_fault_is_failure _ w h
+  rw [hk]
+  obtain ⟨pre, hplan, _, _⟩ := plan_over_prefix w.font p
+  have := faultAt_over_lt w p k pre hplan hf
+  exact destination_untouched_before_replace w p k ha (by rw [hplan]; simp; omega)
+
+/-- glyph 1 of the edited font cannot be written: the in-place save stops at step 3 (component, opening, glyph 0, then
+glyph 1), the save over UFO 2 at step 4 — and leaves UFO 2 alone -/
+example : (attempt .inPlace wEdited).2 = false ∧ faultAt .inPlace wEdited (plan wEdited.font .inPlace) = some 3 := by decide
+example : (attempt (.saveAsOver 2) { wEdited with disk := (2, { comps := [9] }) :: wEdited.disk }).2 = false ∧
+    lookup (attempt (.saveAsOver 2) { wEdited with disk := (2, { comps := [9] }) :: wEdited.disk }).1.disk 2 =
+      some { comps := [9] } := by decide
+
+/-- **A failed layer save keeps its schedule.**  In the order the code uses — glyph files first, deletions second, the
+listing third, and the pending-deletion table cleared only after the listing — a failure (of either kind) at any
+step BEFORE the deletions leaves the pending deletions recorded in the layer, `contents.plist` as it was, and every
+glif file that existed in place: nothing on disk names a file that is gone, and the next save still knows what to
+remove.  (`retry_after_content_fault_persists_partial` draws the consequence: the retry performs the deletions and
+ends with memory = disk.)  This is what reordering the steps — deleting, or forgetting the schedule, before the glyph
+files are written — destroys. -/
+theorem failed_layer_save_keeps_schedule (w : World) (k : Nat)
+    (hb : ∀ s ∈ (plan w.font .inPlace).take k, keepsFiles s = true) :
+    (failAt .inPlace w k).font.scheduled = w.font.scheduled ∧
+    (own (failAt .inPlace w k)).listing = (own w).listing ∧
+    (∀ g, (fileOf (own w) g).isSome = true → (fileOf (own (failAt .inPlace w k)) g).isSome = true) := by
+  rw [failAt_inPlace]
+  exact keeps_run _ w hb
+
+/-- in the edited font the first five steps (component, opening, glyphs 0, 1 and 2) come before the deletion of glyph 3:
+a failure at any of them or at the deletion itself — step 3 is where glyph 1's content fault hits — keeps the
+schedule `[3]` and file 3 -/
+example : ∀ k, k ≤ 5 → ∀ s ∈ (plan wEdited.font .inPlace).take k, keepsFiles s = true := by decide
+example : (plan wEdited.font .inPlace).getD 5 .dropAside = .deleteGlyph 3 := by decide
+example : (failAt .inPlace wEdited 3).font.scheduled = [3] ∧ fileOf (own (failAt .inPlace wEdited 3)) 3 = some 9 := by decide
+
+instance (u : Ufo) (l : List Step) : Decidable (SafePrefix u l) := by unfold SafePrefix; infer_instance
+
+/-- **After a harmless failure the retry persists everything.**  If an in-place save fails (environment or content)
+at a step before which only components and glyphs that `contents.plist` already lists were written — or after the
+listing was written —, then whatever the user edits afterwards, once nothing unwritable is left the next save runs
+through and makes memory = disk: every change since the last successful save, those before the failure and those
+after it, the pending deletions included.  (Generalises `retry_after_component_failure` from the component phase to
+the glyph phase, and from "no edits in between" to any edits.) -/
+theorem retry_after_safe_failure (w : World) (hs : Sync w) (k : Nat)
+    (hp : SafePrefix (own w) ((plan w.font .inPlace).take k)) (es : List Edit)
+    (hnb : NoBad (edits (failAt .inPlace w k) es).font) :
+    attempt .inPlace (edits (failAt .inPlace w k) es) = (save .inPlace (edits (failAt .inPlace w k) es), true) ∧
+    Persisted (save .inPlace (edits (failAt .inPlace w k) es)) := by
+  have h1 : Sync (edits (failAt .inPlace w k) es) := sync_edits es (sync_failAt hs k hp)
+  refine ⟨?_, (save_persists _ h1).1⟩
+  unfold attempt
+  rw [faultAt_none_of_sync h1 hnb]
+
+/-- **… followed by any retry sequence**: the same for a whole history of edits and failed in-place saves between two
+completed saves — as long as each failure is a harmless one (`Harmless`: safe prefix at each failed save, evaluated in
+the world that save started from), a save that finally runs through makes memory = disk. -/
+theorem retry_after_harmless_history (w : World) (hs : Sync w) (evs : List Event) (hh : Harmless w evs)
+    (hnb : NoBad (events w evs).font) :
+    attempt .inPlace (events w evs) = (save .inPlace (events w evs), true) ∧ Persisted (save .inPlace (events w evs)) := by
+  have h1 : Sync (events w evs) := sync_events evs hs hh
+  refine ⟨?_, (save_persists _ h1).1⟩
+  unfold attempt
+  rw [faultAt_none_of_sync h1 hnb]
+
+/-- a history with two failed saves: glyph 1 unwritable (the save stops at step 2), the user repairs glyph 1 but spoils the
+layer info (the next save stops at step 5, after the listing), repairs that: the third save persists everything -/
+example : Harmless wEditedB [.failedSave 2, .edit (.setGlyph 1 66), .edit (.spoilLayerInfo 3), .failedSave 5,
+    .edit (.setLayerInfo 4)] := by
+  simp only [Harmless, edit]
+  decide
+example : faultAt .inPlace wEditedB (plan wEditedB.font .inPlace) = some 2 ∧
+    faultAt .inPlace (events wEditedB [.failedSave 2, .edit (.setGlyph 1 66), .edit (.spoilLayerInfo 3)])
+      (plan (events wEditedB [.failedSave 2, .edit (.setGlyph 1 66), .edit (.spoilLayerInfo 3)]).font .inPlace) = some 5 := by
+  decide
+example : reopen (save .inPlace (events wEditedB [.failedSave 2, .edit (.setGlyph 1 66), .edit (.spoilLayerInfo 3),
+    .failedSave 5, .edit (.setLayerInfo 4)])) 1 = some ([70], [(2, 88), (1, 66)]) := by decide
+
+/-- Full statement (content faults): whenever a save stops at a content fault and the user then edits the font until
+nothing unwritable is left, the next save to the font's path runs through and makes memory = disk. -/
+def RetryAfterContentFaultPersists : Prop :=
+  ∀ (m : Mode) (w : World) (k : Nat), Sync w → faultAt m w (plan w.font m) = some k →
+    ∀ es : List Edit, NoBad (edits (failAt m w k) es).font →
+      (attempt .inPlace (edits (failAt m w k) es)).2 = true ∧
+      Persisted (attempt .inPlace (edits (failAt m w k) es)).1
+
+/-- **The part of it the code satisfies**: an IN-PLACE save that stops at a content fault — a component, a glyph or the
+layer info that cannot be written — when every glyph file written before the faulty step belonged to a glyph that
+`contents.plist` already listed (`writtenBeforeListed`: no NEW or renamed glyph sorts before the faulty one; nothing to
+check when the faulty object is a component) — or the listing itself was written before it (the faulty object is the
+layer info).  Then the pending deletions are still recorded (`failed_layer_save_keeps_schedule`), and after any edits that
+leave nothing unwritable the next save runs through, performs them and ends with memory = disk. -/
+theorem retry_after_content_fault_persists_partial (w : World) (hs : Sync w) (k : Nat)
+    (hf : faultAt .inPlace w (plan w.font .inPlace) = some k)
+    (hl : writtenBeforeListed w k = true ∨ Step.writeContents ∈ (plan w.font .inPlace).take k) (es : List Edit)
+    (hnb : NoBad (edits (failAt .inPlace w k) es).font) :
+    (attempt .inPlace (edits (failAt .inPlace w k) es)).2 = true ∧
+    Persisted (attempt .inPlace (edits (failAt .inPlace w k) es)).1 := by
+  have hp : SafePrefix (own w) ((plan w.font .inPlace).take k) := by
+    rcases hl with hl | hl
+    · have hl' : ∀ g, Step.writeGlyph g ∈ (plan w.font .inPlace).take k → g ∈ (own w).listing := by
+        intro g hg
+        have := List.all_eq_true.mp hl _ hg
+        simpa [listedIfGlyph] using this
+      exact safePrefix_of_fault k hf hl'
+    · exact Or.inr hl
+  obtain ⟨a, b⟩ := retry_after_safe_failure w hs k hp es hnb
+  rw [a]
+  exact ⟨rfl, b⟩
+
+/-- `wEditedB`: the same edits without the new glyph: no glyph file is written before the faulty one (glyph 1 is the
+first dirty glyph in order); the save fails at glyph 1, glyph 1 is corrected, the retry removes file 3 and persists
+everything -/
+example : faultAt .inPlace wEditedB (plan wEditedB.font .inPlace) = some 2 ∧ writtenBeforeListed wEditedB 2 = true := by decide
+/-- … and in the history WITH the new glyph the hypothesis is what fails (glyph 0 is written first and not listed) -/
+example : writtenBeforeListed wEdited 3 = false ∧ Step.writeContents ∉ (plan wEdited.font .inPlace).take 3 := by decide
+example : NoBad (edits (failAt .inPlace wEditedB 2) [.setGlyph 1 66]).font := by unfold NoBad; decide
+example : reopen (attempt .inPlace (edits (failAt .inPlace wEditedB 2) [.setGlyph 1 66])).1 1 =
+    some ([70], [(2, 88), (1, 66)]) := by decide
+/-- non-vacuity of `retry_after_safe_failure` at a layer-info content fault (the listing is written by then) -/
+example : SafePrefix (own (edits wEditedB [.setGlyph 1 6, .spoilLayerInfo 3]))
+    ((plan (edits wEditedB [.setGlyph 1 6, .spoilLayerInfo 3]).font .inPlace).take 6) ∧
+    faultAt .inPlace (edits wEditedB [.setGlyph 1 6, .spoilLayerInfo 3])
+      (plan (edits wEditedB [.setGlyph 1 6, .spoilLayerInfo 3]).font .inPlace) = some 6 := by decide
+
+/-- F19 with a REAL fault, in place: the new glyph 0 sorts before the unwritable glyph 1; its file is written and its
+flag cleared, the save stops at glyph 1 before the listing; glyph 1 is corrected, the retry succeeds — and does not
+list glyph 0: re-opening does not show it. -/
+theorem retry_after_content_fault_violated_in_place :
+    (attempt .inPlace (edits (failAt .inPlace wEdited 3) [.setGlyph 1 66])).2 = true ∧
+    diskGlyph (own (attempt .inPlace (edits (failAt .inPlace wEdited 3) [.setGlyph 1 66])).1) 0 = none ∧
+    memGlyph (attempt .inPlace (edits (failAt .inPlace wEdited 3) [.setGlyph 1 66])).1.font 0 = some 4 := by decide
+
+/-- … though the deletion of glyph 3 is not lost (`failed_layer_save_keeps_schedule`): the retry removes it -/
+example : diskGlyph (own (attempt .inPlace (edits (failAt .inPlace wEdited 3) [.setGlyph 1 66])).1) 3 = none ∧
+    fileOf (own (attempt .inPlace (edits (failAt .inPlace wEdited 3) [.setGlyph 1 66])).1) 3 = none := by decide
+
+/-- F19 with a real fault, save-as: the save-as to a new path stops at glyph 1 after the component and glyph 0 were
+written THERE and their flags cleared; the retry to the font's own path writes neither. -/
+theorem retry_after_content_fault_violated_save_as :
+    (attempt .inPlace (edits (failAt (.saveAsNew 2) wEdited 3) [.setGlyph 1 66])).2 = true ∧
+    (own (attempt .inPlace (edits (failAt (.saveAsNew 2) wEdited 3) [.setGlyph 1 66])).1).comps = [7] ∧
+    (attempt .inPlace (edits (failAt (.saveAsNew 2) wEdited 3) [.setGlyph 1 66])).1.font.comps = [70] := by decide
+
+theorem retry_after_content_fault_violated : ¬ RetryAfterContentFaultPersists := by
+  intro h
+  have h1 := (h .inPlace wEdited 3 sync_wEdited (by decide) [.setGlyph 1 66] (by unfold NoBad; decide)).2.2.1 0
+  rw [retry_after_content_fault_violated_in_place.2.1, retry_after_content_fault_violated_in_place.2.2] at h1
+  cases h1
 
 end DefconModel.Props.C18
